@@ -373,6 +373,15 @@ func genBox(t *rapid.T) *Box {
 	return b
 }
 
+// jsonKey draws a member name: one time in three a name that GeoJSON itself gives a
+// meaning elsewhere in the document (a property called "id" is just a property).
+func jsonKey(t *rapid.T, pattern string) string {
+	if rapid.IntRange(0, 2).Draw(t, "reserved") == 0 {
+		return rapid.SampledFrom([]string{"id", "id", "ID", "type", "bbox", "geometry", "properties", "features", "coordinates", "geometries", "crs", "name", ""}).Draw(t, "rkey")
+	}
+	return rapid.StringMatching(pattern).Draw(t, "key")
+}
+
 func genJSONValue(t *rapid.T, depth int) any {
 	k := rapid.IntRange(0, 6).Draw(t, "jkind")
 	if depth <= 0 && k >= 5 {
@@ -400,7 +409,7 @@ func genJSONValue(t *rapid.T, depth int) any {
 		n := rapid.IntRange(0, 3).Draw(t, "jobj")
 		m := map[string]any{}
 		for i := 0; i < n; i++ {
-			m[rapid.StringMatching(`[a-z]{1,4}`).Draw(t, "jkey")] = genJSONValue(t, depth-1)
+			m[jsonKey(t, `[a-z]{1,4}`)] = genJSONValue(t, depth-1)
 		}
 		return m
 	}
@@ -429,7 +438,7 @@ func genFeat(t *rapid.T) Feat {
 		m := map[string]any{}
 		n := rapid.IntRange(1, 4).Draw(t, "nprops")
 		for i := 0; i < n; i++ {
-			m[rapid.StringMatching(`[a-zA-Z_]{1,6}`).Draw(t, "pkey")] = genJSONValue(t, 2)
+			m[jsonKey(t, `[a-zA-Z_]{1,6}`)] = genJSONValue(t, 2)
 		}
 		b, _ := json.Marshal(m)
 		f.Props = b
